@@ -370,13 +370,14 @@ class Check:
                 deps.add(f2)
                 for im in re.finditer(r"^import\s+(TfelVerif\.\S+)", open(f2).read(), re.M):
                     todo2.append(os.path.join(LEAN, im.group(1).replace(".", "/") + ".lean"))
-            built = os.path.exists(olean) and not errs_here and \
-                all(os.path.getmtime(olean) >= os.path.getmtime(f2) for f2 in deps)
-            if p.returncode != 0 and not errs_here and os.path.exists(olean):
-                # lake failed somewhere: trust this module's olean only if lake did not list it (or an import) as failed
+            # lake decides freshness by content hash: when it returned 0 every requested module is up to date.
+            # When it failed, a module is trusted only if neither it nor one of its imports is listed as failed
+            # (a stale olean of a dependent module may survive the failed build of an import).
+            built = os.path.exists(olean) and not errs_here
+            if built and p.returncode != 0:
                 failed_mods = set(re.findall(r"^- (TfelVerif\.\S+)", res.log, re.M))
                 depmods = {os.path.relpath(f2, LEAN)[:-5].replace("/", ".") for f2 in deps}
-                if failed_mods & depmods:
+                if (failed_mods & depmods) or not failed_mods:
                     built = False
             if built:
                 auditable += [(m, n) for n in mnames]
@@ -405,6 +406,8 @@ class Check:
                                        "msg": "#print axioms produced no answer: " + out[-300:], "is_prop": True})
             if res.bad_axioms or len(got) != len(auditable):
                 res.ok = False
+        if res.failed:
+            res.ok = False
         res.wall = time.time() - t
         self.lean_results.append(res)
         self.log("lean: %d theorems audited, %d failed obligations, ok=%s (%.1fs)" %
